@@ -32,6 +32,9 @@ type vtable struct {
 	vals map[int][]any
 }
 
+// processStart: one reading of the clock per process
+var processStart = time.Now()
+
 func mustTime(s string) time.Time {
 	t, err := time.Parse(time.RFC3339Nano, s)
 	must(err)
@@ -48,8 +51,9 @@ func zeroFirstTable(n int, seed int64) *vtable {
 		for k, v := range base.vals {
 			t.vals[k] = v
 		}
+		// (rank 3 is read from the clock: such a value carries a monotonic reading next to the wall time)
 		t.vals[jsonapi.AttrTypeTime] = []any{time.Time{}, mustTime("2001-02-03T12:00:00.5Z"), mustTime("2001-02-03T14:00:00.5+02:00"),
-			mustTime("2001-02-03T07:00:00.5-05:00")}
+			processStart.Add(-3 * time.Hour)}
 		return t
 	}
 	if n == 0 {
